@@ -10,10 +10,20 @@ ENGINE_C = "storesim"
 
 # property -> (engine, category, technique, level text, level note, design ref)
 CLAIMED = {
+    "C01": (ENGINE_A, "exploration",
+            "direct drive of the real nuts::draw (hook H3) with every random decision scripted by the simulator (directions, selection thresholds, momentum); refinement against the index-based reference RefNuts; mirrored re-execution from every state of the trajectory",
+            "Per scenario (target, explicit diagonal / low-rank transformation, Euclidean / ExactNormal, step size, maxdepth 1..6, start, momentum, direction script, threshold script): R1 the real nuts::draw re-run from every state of the final block with the mirrored doubling choices visits the same states with the same depth and stopping reason; R2 with the same thresholds the implementation selects the index the reference selection law selects and draws random numbers in the predicted sequence; R3 the direction is the sign bit of the raw uniform draw (probability exactly 1/2); the tree building equals RefNuts.",
+            "Detailed balance of the reference kernel itself is the algebra of DESIGN.md Appendix A, not re-derived numerically. Divergent trajectories are outside the quantifier; near-ties and numerically unstable orbits (energy spread > 2) are skipped for R1 and counted.",
+            "DESIGN.md §5 C01, Appendix A"),
+    "C02": (ENGINE_A, "exploration",
+            "direct drive of the real Hamiltonian::leapfrog (hook H3) from a scripted momentum; every visited state (trajectory tap) compared with a dense-matrix reference",
+            "Sequences of single leapfrog steps of both signs for explicit diagonal / low-rank transformations (dimension 1..64, rank 0..d) and both kinetic energies: x = F(y)+mu for every state (inverse consistent with the forward map), gradient pull-back, documented log-determinant, energy, each step equals the textbook leapfrog in the original space for M^-1 = F F^T (ExactNormal: residual kick / rotation / kick), forward+backward returns the start, ExactNormal conserves the energy on a standard normal.",
+            "Weak fit for the family: the property is a pure function of its inputs except for the re-derivation of whitened coordinates after a transformation change (covered in adaptive chains by C03's next-trajectory oracle). Volume preservation and the O(eps^2) order are not measured (they follow from equality with the textbook map).",
+            "DESIGN.md §5 C02"),
     "C03": (ENGINE_A, "exploration",
             "seeded simulation of single-chain histories with a record of every density evaluation and of every momentum draw (SimMath seam); per-draw membership and consistency oracle",
             "Seeded search over NUTS presets x maxdepth/mindepth/max_energy_error/target_integration_time/kinetic energy x targets (dimension 0 and 1 included) x histories with natural and injected divergences. Every returned draw must be the start or a fault-free evaluated position of its own trajectory (bitwise), its logp/gradient statistics must be what the density returned there, index 0 iff not moved, depth/steps/index bounds, at least one step, maxdepth flag; for Diag NUTS the first evaluated position of the next trajectory must be the reference-leapfrog image of the draw under the reported scales, step size and the observed momentum.",
-            "The per-leapfrog audit of U-turn decisions of sub-trajectories is not built (no Collector hook): 'stops exactly when' is judged through the depth/steps bounds only. extra_doublings>0 is outside the property's quantifier and not generated.",
+            "With the trajectory tap (hook H3) RefNuts recomputes, from the visited states, the U-turn criterion of the whole trajectory and of every balanced sub-trajectory in build order and therefore where the doubling had to stop: reported depth, stop reason, maxdepth flag and the accepted block must match (near-ties skipped and counted). extra_doublings>0 and target_integration_time are outside the audit.",
             "DESIGN.md §5 C03"),
     "C04": (ENGINE_A, "exploration",
             "seeded, exactly repeatable multi-chain simulation with default settings; between-chain t statistics against known moments; momentum observed at the delegating Math seam",
